@@ -27,6 +27,10 @@ LIB = {
     "targ": "{{{1|}}}",
     "tcond": "{{#if:{{{1|}}}|x}}",
     "tnoinc": "<noinclude>doc only</noinclude>",
+    # expansions used where a NAME is expected (argument name, template name)
+    "tone": "1",
+    "tkey": "k",
+    "tname": "tb",
 }
 CALLABLE = ["ta", "tb", "Tc", "t d", "te", "tloop", "tmut1", "tinv", "tinvp",
             "terr", "tbadpfn", "tpp", "tempty", "targ", "tcond", "tnoinc"]
@@ -228,6 +232,12 @@ FIXED = [
     "[[a|{{tb|x}}]] [http://x.y {{tb|z}}] {{{p|{{tb|d}}}}}",
     "{{#invoke:echo|pp|{{((}}tloop{{))}}}}",
     "a{{tempty}}b{{targ}}{{tcond}}{{tnoinc}}{{targ|v}}",
+    # computed argument names (to a number, to a word, half computed) and
+    # computed template / parser-function names
+    "{{tb|{{tone}}=v}}{{tb|{{#expr:1+1}}=w}}{{tb|{{{n|3}}}=x}}",
+    "{{tb|{{tkey}}=v}}{{tb|a{{tone}}=v}}{{tb|{{tone}}{{tone}}=v|{{tempty}}=e}}",
+    "{{ {{tname}} |x}}{{ {{tkey}} |x}}{{ {{tempty}} |x}}{{#{{tkey}}:x}}",
+    "{{tb|{{tone}}={{tb|{{tone}}=in}}}}{{#if:x|{{tb|{{tone}}=p}}}}",
 ]
 
 
